@@ -173,6 +173,39 @@ impl Findings {
     }
 }
 
+// ---------------------------------------------------------------- stuck-case monitor
+
+/// What each worker thread is running right now: (section, case as JSON, since when). Used to turn a blocking
+/// deadlock inside the code under test (which no in-process oracle can observe) into a reported, replayable case.
+static RUNNING: Mutex<Vec<Option<(String, String, Instant)>>> = Mutex::new(Vec::new());
+thread_local! {
+    static SLOT: Cell<usize> = const { Cell::new(usize::MAX) };
+}
+static MONITOR_ON: AtomicBool = AtomicBool::new(false);
+
+fn slot_enter(section: &str, case_json: impl FnOnce() -> String) {
+    if !MONITOR_ON.load(Ordering::Relaxed) {
+        return;
+    }
+    let mut g = RUNNING.lock().unwrap();
+    let mut i = SLOT.with(|s| s.get());
+    if i == usize::MAX {
+        g.push(None);
+        i = g.len() - 1;
+        SLOT.with(|s| s.set(i));
+    }
+    g[i] = Some((section.to_string(), case_json(), Instant::now()));
+}
+fn slot_leave() {
+    if !MONITOR_ON.load(Ordering::Relaxed) {
+        return;
+    }
+    let i = SLOT.with(|s| s.get());
+    if i != usize::MAX {
+        RUNNING.lock().unwrap()[i] = None;
+    }
+}
+
 // ---------------------------------------------------------------- context / report
 
 pub struct Ctx {
@@ -186,6 +219,7 @@ pub struct Ctx {
     pub strict: bool,
     /// proptest shrink budget (lower it for checks whose cases take seconds)
     pub max_shrink_iters: std::sync::atomic::AtomicU32,
+    current_section: Mutex<String>,
 }
 
 #[derive(Default)]
@@ -338,7 +372,48 @@ impl Ctx {
         }
         let seed = std::env::var("VERIF_SEED").ok().and_then(|s| s.trim().parse::<i64>().ok()).map(|x| x as u64).unwrap_or(20_260_924);
         let level = level_of(&property);
-        Ctx { property, tier, seed, level, replay, findings: Findings::load(), start: Instant::now(), strict, max_shrink_iters: std::sync::atomic::AtomicU32::new(4000) }
+        Ctx { property, tier, seed, level, replay, findings: Findings::load(), start: Instant::now(), strict, max_shrink_iters: std::sync::atomic::AtomicU32::new(4000), current_section: Mutex::new(String::new()) }
+    }
+
+    /// Start the stuck-case monitor. `deadlocked` is a *definitive* detector (e.g. parking_lot's wait-for-graph check);
+    /// when a case has been running for `after` and the detector confirms a deadlock, the case is written out as a
+    /// replay file, a VIOLATION line is printed and the process exits with 1 (the stuck threads cannot be recovered).
+    /// Without confirmation a case stuck for 20x `after` ends the run as inconclusive (exit 2).
+    pub fn enable_stuck_monitor(&self, after: std::time::Duration, sig: &'static str, deadlocked: impl Fn() -> bool + Send + 'static) {
+        MONITOR_ON.store(true, Ordering::Relaxed);
+        let property = self.property.clone();
+        let seed = self.seed;
+        let replaying = self.replay.is_some();
+        std::thread::spawn(move || loop {
+            std::thread::sleep(std::time::Duration::from_millis(500));
+            let stuck: Vec<(String, String, std::time::Duration)> = RUNNING.lock().unwrap().iter().flatten().filter(|x| x.2.elapsed() > after).map(|x| (x.0.clone(), x.1.clone(), x.2.elapsed())).collect();
+            if stuck.is_empty() {
+                continue;
+            }
+            let confirmed = deadlocked();
+            if confirmed {
+                let (section, case, _) = &stuck[0];
+                let case_v: Value = serde_json::from_str(case).unwrap_or(Value::Null);
+                let msg = "the code under test blocked inside a single poll (lock wait-for cycle confirmed by the deadlock detector): the endpoint is wedged";
+                let path = if replaying {
+                    "(replay)".to_string()
+                } else {
+                    let dir = PathBuf::from(format!("{VERIF_ROOT}/replays"));
+                    std::fs::create_dir_all(&dir).ok();
+                    let body = json!({"property": property, "section": section, "sig": sig, "msg": msg, "seed": seed, "case": case_v});
+                    let p = dir.join(format!("{}-{}-{:08x}.json", property, section, hash_of(&body.to_string()) as u32));
+                    std::fs::write(&p, serde_json::to_string_pretty(&body).unwrap()).ok();
+                    p.display().to_string()
+                };
+                println!("VIOLATION property={property} replay={path}");
+                println!("  section={section} sig={sig} : {msg}");
+                std::process::exit(1);
+            }
+            if stuck.iter().any(|x| x.2 > after * 20) {
+                println!("INCONCLUSIVE property={property} a case has been running for {:?} without a confirmed deadlock (section {})", stuck[0].2, stuck[0].0);
+                std::process::exit(2);
+            }
+        });
     }
 
     pub fn report(&self) -> Report {
@@ -369,10 +444,12 @@ impl Ctx {
         stats: &mut Stats,
         counting: bool,
     ) -> Result<(), (String, String)> {
+        slot_enter(&self.current_section.lock().unwrap(), || serde_json::to_string(case).unwrap_or_default());
         let out = match quiet_catch(|| f(case)) {
             Ok(o) => o,
             Err(p) => Outcome::violation("panic", format!("harness/code panicked: {p}")),
         };
+        slot_leave();
         if counting {
             stats.record(case, &out);
         }
@@ -418,6 +495,7 @@ impl Ctx {
             return;
         }
         rep.any_section = true;
+        *self.current_section.lock().unwrap() = section.to_string();
         if let Some((_, v)) = &self.replay {
             self.replay_one(rep, section, v, &f);
             return;
@@ -508,6 +586,7 @@ impl Ctx {
             return;
         }
         rep.any_section = true;
+        *self.current_section.lock().unwrap() = section.to_string();
         if let Some((_, v)) = &self.replay {
             self.replay_one(rep, section, v, &f);
             return;
@@ -566,10 +645,12 @@ impl Ctx {
         let mut viol = vec![];
         let strict_ctx_result = {
             // replay is always strict: known findings do not hide anything
+            slot_enter(section, || v.to_string());
             let out = match quiet_catch(|| f(&case)) {
                 Ok(o) => o,
                 Err(p) => Outcome::violation("panic", format!("panicked: {p}")),
             };
+            slot_leave();
             stats.record(&case, &out);
             out
         };
